@@ -46,6 +46,10 @@ DEFAULT_CONFIG = {
 LATENCY = {"disk": 2e-5, "solver": 1e-3, "stdout": 1e-5}
 
 
+class SimulatedInterrupt(KeyboardInterrupt):
+    """Ctrl-C delivered by the simulator (a real KeyboardInterrupt is never swallowed by the harness)."""
+
+
 class FaultPlan:
     """Faults addressed as (op_index, seam, event index within that op)."""
 
@@ -475,12 +479,16 @@ class _Capture(logging.Handler):
         super().__init__(level=logging.NOTSET)
         self.world = world
         self.records = []
+        self.broken = []
 
     def emit(self, record):
         try:
             msg = record.getMessage()
-        except Exception:  # pragma: no cover
-            msg = str(record.msg)
+        except Exception as e:
+            # what every stdlib handler does when a record cannot be rendered: the message is lost (handleError)
+            self.broken.append((record.name, record.levelno, repr(record.msg)[:120], type(e).__name__))
+            self.world.log.add(self.world.clock.now, "log", record.name, record.levelno, "UNRENDERABLE:" + type(e).__name__)
+            return
         self.records.append((record.name, record.levelno, msg))
         self.world.log.add(self.world.clock.now, "log", record.name, record.levelno, msg[:80])
 
@@ -538,6 +546,22 @@ class World:
 
     def begin_op(self, i):
         self.log.op_index = i
+
+    def benign(self):
+        """Context manager: seam events inside it are counted in a namespace no fault plan addresses."""
+        world = self
+
+        class _Benign:
+            def __enter__(self_inner):
+                self_inner.saved = world.log.op_index
+                world.log.op_index = -7000000 - abs(self_inner.saved)
+                return world
+
+            def __exit__(self_inner, *exc):
+                world.log.op_index = self_inner.saved
+                return False
+
+        return _Benign()
 
     def op_counts(self):
         """{op_index: {seam: n events}} -- what the dry run hands to the fault planner."""
@@ -652,6 +676,19 @@ class World:
             np.set_printoptions(threshold=3, edgeitems=1, linewidth=40)
         elif kind == "legacy113":
             np.set_printoptions(legacy="1.13")
+        # S7: user-code events (custom edges call useredges.HOOK on entry to calc_error)
+        from . import useredges as _ue
+
+        def _hook():
+            idx = self.next_event("usercode")
+            f = self.plan.lookup(self.log.op_index, "usercode", idx)
+            if f is not None and f["kind"] == "interrupt":
+                self.fire(f)
+                self.log.add(self.clock.now, "usercode", "calc_error", None, "interrupt")
+                raise SimulatedInterrupt("simulated: KeyboardInterrupt while user edge code runs")
+
+        self._ue = _ue
+        _ue.HOOK[0] = _hook
         self._installed = True
         return self
 
@@ -659,6 +696,7 @@ class World:
         gg = self._gg
         ssl = self._ssl
         s = self._saved
+        self._ue.HOOK[0] = None
         np.set_printoptions(**self._np_print)
         self._wctx.__exit__(None, None, None)
         lg = logging.getLogger("graphslam")
